@@ -51,3 +51,41 @@ func VP_C14_spacing() {
 		vpReach("C14/spacing/rejected")
 	}
 }
+
+func init() {
+	vpHarnesses["VP_C14_identparts"] = VP_C14_identparts
+}
+
+// C14/identparts: identifiers continue over every identifier-PART character,
+// also those that cannot START an identifier (combining marks, non-ASCII
+// digits, ZWNJ/ZWJ, connector punctuation), and stop at characters that are
+// neither: a CONCRETE POOL of code points between an identifier start and a
+// tail, against the reference tokenizer (3..7 bytes: beyond the symbolic bound).
+func VP_C14_identparts() {
+	cps := []rune{0x0301, 0x0663, 0x200C, 0x200D, 0xFF11, 0x0903, 0x203F, 0x00E9, 0x4E2D, 0x0660, 0x0483, 0x0E31, 0x00B7, 0x00D7, 0x2028, 0x00A0, 0x3000, 0x2014, '1', '_', '$', '-', 0x1D7CE}
+	first := []string{"a", "é", "$", "_", "中"}[vpChoice("first", 5)]
+	cp := cps[vpChoice("cp", len(cps))]
+	tail := []string{"", "b", "1", "́"}[vpChoice("tail", 4)]
+	text := []byte(first + string(cp) + tail)
+	L := len(text)
+	want, cut := vpRefTokenize(text)
+	s := CreateScanner(text, nil)
+	same := true
+	for _, w := range want {
+		k := s.Scan()
+		if k != w.kind || s.GetTokenPos() != w.start || s.GetTextPos() != w.end || s.HasPrecedingLineBreak() != w.lb {
+			same = false
+			break
+		}
+	}
+	vpObserve("identparts", len(want), cut)
+	vpAssert("C14/identparts/longest-match-kinds-and-extents", same)
+	if !cut {
+		vpAssert("C14/identparts/ends-at-end-of-input", s.GetTextPos() == L || !same)
+	}
+	if IsIdentifierPart(cp) {
+		// one identifier token up to (at least) the end of cp
+		vpAssert("C14/identparts/part-continues-the-identifier", len(want) > 0 && want[0].kind == SK_Identifier && want[0].end >= len(first)+len(string(cp)))
+	}
+	vpReach("C14/identparts/done")
+}
